@@ -361,18 +361,25 @@ func (r *regWorld) storageOp(p *pools) (string, string) {
 	if rng.Intn(10) == 0 {
 		// the two single-statement counter operations: compare-and-store, fetch-and-increment
 		e := p.eui()
+		// the session key the caller verified the frame under: the stored one (a read, not part of the sequence) or another
+		key := someKey(rng)
+		if rng.Intn(3) > 0 {
+			if cur, err := st.GetDeviceByEUI(e); err == nil {
+				key = cur.NwkSKey
+			}
+		}
 		if rng.Intn(2) == 0 {
 			a, nf, kw := someU16(rng), someU16(rng), rng.Intn(2) == 0
 			if rng.Intn(2) == 0 {
 				nf = a + 1
 			}
-			return fmt.Sprintf("af:%s:%d:%d:%s", rEUI(e), a, nf, rB(kw)), res(st.AdvanceFCntUp(e, a, nf, kw))
+			return fmt.Sprintf("af:%s:%s:%d:%d:%s", rEUI(e), hx(key.Key[:]), a, nf, rB(kw)), res(st.AdvanceFCntUp(e, key, a, nf, kw))
 		}
-		c, err := st.NextFCntDn(e)
+		c, err := st.NextFCntDn(e, key)
 		if err != nil {
-			return "nd:" + rEUI(e), rErr(err)
+			return "nd:" + rEUI(e) + ":" + hx(key.Key[:]), rErr(err)
 		}
-		return "nd:" + rEUI(e), fmt.Sprintf("cnt:%d", c)
+		return "nd:" + rEUI(e) + ":" + hx(key.Key[:]), fmt.Sprintf("cnt:%d", c)
 	}
 	switch k := rng.Intn(44); {
 	case k < 3:
